@@ -7,6 +7,8 @@
 import Pdt.Props.C07Sql
 import Pdt.Props.C01Window
 import Pdt.Props.C01Ord
+import Pdt.Props.C01Gen
+import Pdt.Props.C06Sql
 
 namespace Pdt.C08
 open Pdt Pdt.Spec Pdt.Sql Pdt.C01
@@ -956,5 +958,152 @@ example : OFrag (.sliceHead 3 (.arrange 2 (.source 1 "t" [("a", 10, .int64), ("b
       [(.col 10 .int64 .elementWise, true, none)]) 2 0) :=
   ⟨OFrag.slice 3 2 0 (OFrag.arrange 2 _ (Frag.refines (Frag.source 1 "t" _ .sqlite (by decide))) (by decide +kernel) (by decide)),
    Wrap.sliceHead 3 2 0 (Wrap.arrange 2 _ (Wrap.leaf (Frag.neededMono (Frag.source 1 "t" _ .sqlite (by decide)))))⟩
+
+/-! ### any refined pipeline that keeps the counter; joins -/
+
+/-- the general form of `frag_marker_refines`: any pipeline with the invariant of the row-level fragment (`C01.Refines`: the row-level
+    fragment itself, joins of source tables followed by row-level verbs, …) whose compilation keeps the counter -/
+theorem refines_marker_refines {c : Ast} {sc : List Uid} (h : Refines c sc) (hm : NeededMono c) (db : DB) (i : NodeId) (needed : Needed)
+    (hneed : ∀ e ∈ (Spec.run db c).visible, 1 ≤ low needed e.2)
+    (hnames : ((Spec.run db c).visible.map (·.1)).Nodup) :
+    ∃ r2 n2, compile (.subqueryMarker i c) needed = .ok (r2, n2) ∧ Sql.run db r2 = (Spec.run db (.subqueryMarker i c)).frame := by
+  obtain ⟨r, n1, hc, inv⟩ := h db needed
+  have hmono := hm needed r n1 hc
+  have hready : Ready r n1 := by
+    refine ⟨?_, ?_, ?_, fun N _ => ready_agg_none _ _ (defsEwise_not_agg r.defs inv.hd) N⟩
+    · intro u hu
+      rw [inv.hsel] at hu
+      obtain ⟨e, he, rfl⟩ := List.mem_map.1 hu
+      exact any_of_low _ _ (Nat.le_trans (hneed e he) (hmono e.2))
+    · intro u hu
+      rw [inv.hsel] at hu
+      obtain ⟨e, he, rfl⟩ := List.mem_map.1 hu
+      exact (inv.hkeys e.2).2 (inv.hvis e he)
+    · rw [inv.hsel, C07.labels_eq r.defs _ inv.hname]
+      exact hnames
+  exact refines_through_marker db i c needed r n1 hc hready (inv_refines db sc r _ inv)
+
+theorem join_needed_mono (i : NodeId) (c rt : Ast) (on : Expr) (how : How) (hl : NeededMono c) (hr : NeededMono rt) :
+    NeededMono (.join i c rt on how) := by
+  intro needed r n' hc u
+  simp only [compile] at hc
+  cases hcl : compile c ((uidsOfVerb (.join i c rt on how)).foldl Needed.incr needed) with
+  | error e => rw [hcl] at hc; simp [bind, Except.bind] at hc
+  | ok p =>
+    rw [hcl] at hc
+    simp only [bind, Except.bind] at hc
+    cases hcr : compile rt p.2 with
+    | error e => rw [hcr] at hc; simp at hc
+    | ok q =>
+      rw [hcr] at hc
+      simp only at hc
+      have h1 := hl _ p.1 p.2 hcl u
+      have h2 := hr _ q.1 q.2 hcr u
+      have key : n' = (uidsOfVerb (.join i c rt on how)).foldl Needed.decr q.2 := by
+        cases how <;> simp only [pure, Except.pure] at hc <;> (repeat' split at hc) <;> simp_all [throw, throwThe, MonadExceptOf.throw]
+      rw [key]
+      exact wrap_mono _ _ _ u (Nat.le_trans h1 h2)
+
+theorem source_needed_mono (i : NodeId) (name : String) (cols : List (String × Uid × Dtype)) (be : Backend) :
+    NeededMono (.source i name cols be) := by
+  intro needed r n' hc u
+  simp only [compile, Except.ok.injEq, Prod.mk.injEq] at hc
+  rw [← hc.2]; exact Nat.le_refl _
+
+theorem JFrag.wrap {ast : Ast} {sc : List Uid} (h : C06.JFrag ast sc) : Wrap ast := by
+  induction h with
+  | join i j1 j2 n1 n2 cols1 cols2 be1 be2 on how _ _ _ =>
+    exact Wrap.leaf (join_needed_mono i _ _ on how (source_needed_mono j1 n1 cols1 be1) (source_needed_mono j2 n2 cols2 be2))
+  | select i cols _ _ ih => exact Wrap.select i cols ih
+  | rename i m _ ih => exact Wrap.rename i m ih
+  | filter i preds _ _ _ ih => exact Wrap.filter i preds ih
+  | mutate i L metas _ _ _ _ _ ih => exact Wrap.mutate i _ _ _ metas ih
+
+/-- **a join of two source tables followed by row-level verbs, materialised as a subquery, refines the reference semantics** -/
+theorem jfrag_marker_refines {c : Ast} {sc : List Uid} (h : C06.JFrag c sc) (db : DB) (i : NodeId) (needed : Needed)
+    (hneed : ∀ e ∈ (Spec.run db c).visible, 1 ≤ low needed e.2)
+    (hnames : ((Spec.run db c).visible.map (·.1)).Nodup) :
+    ∃ r2 n2, compile (.subqueryMarker i c) needed = .ok (r2, n2) ∧ Sql.run db r2 = (Spec.run db (.subqueryMarker i c)).frame :=
+  refines_marker_refines (fun db needed => C06.jfrag_refines h db needed) (wrap_needed_mono (JFrag.wrap h)) db i needed hneed hnames
+
+/-! ### a grouped summarize below the marker -/
+
+def sumOut (r : Compiled) (K : List (Uid × ColMeta)) (L : List (String × Uid × Expr)) : Compiled :=
+  { r with query := { r.query with groupBy := K.map (·.1), select := (K.map (·.1)).filter (fun u => !(L.map (·.1)).contains (Defs.name (r.defs ++ newDefs r.defs L) u)) ++ L.map (·.2.1), partitionBy := [], orderBy := [] }, defs := r.defs ++ newDefs r.defs L }
+
+/-- **a grouped `summarize` materialised as a subquery still refines the reference semantics** (`summarize >> alias() >> …`, the
+    usual way to filter or join on aggregated values) -/
+theorem grouped_marker_refines {c : Ast} {sc : List Uid} (h : Base c sc) (hm : NeededMono c) (db : DB) (m j i : NodeId)
+    (K : List (Uid × ColMeta)) (hK : K ≠ []) (hKsc : ∀ cu ∈ K, cu.1 ∈ sc) (hKnc : ∀ cu ∈ K, cu.2.dtype.isConst = false)
+    (hKnd : (K.map (·.1)).Nodup) (hKvis : ∀ cu ∈ K, ∃ e ∈ (Spec.run db c).visible, e.2 = cu.1)
+    (L : List (String × Uid × Expr)) (metas : List (Dtype × Ftype))
+    (hv : ∀ t ∈ L, ∀ u ∈ t.2.2.uids, u ∈ sc) (hfresh : ∀ t ∈ L, t.2.1 ∉ sc) (hnd : (L.map (·.2.1)).Nodup) (needed : Needed)
+    (hneed : ∀ u ∈ K.map (·.1) ++ L.map (·.2.1), 1 ≤ low needed u)
+    (hnames : ((Spec.run db (.summarize i (.groupBy j c K false) (L.map (·.1)) (L.map (·.2.2)) (L.map (·.2.1)) metas)).visible.map (·.1)).Nodup) :
+    ∃ r2 n2, compile (.subqueryMarker m (.summarize i (.groupBy j c K false) (L.map (·.1)) (L.map (·.2.2)) (L.map (·.2.1)) metas)) needed = .ok (r2, n2) ∧
+      Sql.run db r2 = (Spec.run db (.subqueryMarker m (.summarize i (.groupBy j c K false) (L.map (·.1)) (L.map (·.2.2)) (L.map (·.2.1)) metas))).frame := by
+  -- the refinement below the marker
+  obtain ⟨rs, ns, hcs, href⟩ := sql_refines_spec_grouped_gen h db j i K hK hKsc hKnc hKnd hKvis L metas hv hfresh hnd needed
+  -- … and what the compiler returned there, explicitly
+  obtain ⟨r, n', hc, inv⟩ := h.ref db
+    ((uidsOfVerb (.groupBy j c K false)).foldl Needed.incr
+      ((uidsOfVerb (.summarize i (.groupBy j c K false) (L.map (·.1)) (L.map (·.2.2)) (L.map (·.2.1)) metas)).foldl Needed.incr needed))
+  have hz : ((L.map (·.1)).zip ((L.map (·.2.1)).zip (L.map (·.2.2)))).map (fun nuv => (nuv.2.1, nuv.1, Sql.inline r.defs nuv.2.2)) = newDefs r.defs L := by
+    rw [zip3_map, List.map_map]; rfl
+  have hndkeys : (newDefs r.defs L).map (·.1) = L.map (·.2.1) := by unfold newDefs; rw [List.map_map]; rfl
+  have hfr : ∀ e ∈ newDefs r.defs L, (r.defs.get e.1).isSome = false := by
+    intro e he
+    obtain ⟨t, ht, rfl⟩ := List.mem_map.1 he
+    rw [Bool.eq_false_iff, Ne, inv.hkeys]
+    exact hfresh t ht
+  have hfold : (newDefs r.defs L).foldl (fun d e => d.set e.1 e.2) r.defs = r.defs ++ newDefs r.defs L :=
+    foldl_set_fresh _ _ hfr (by rw [hndkeys]; exact hnd)
+  have hgb : ((K.map (fun cu => (cu.1, cu.2.dtype.isConst))).filter (fun p => !p.2)).map (·.1) = K.map (·.1) := by
+    rw [List.filter_map, List.map_map]
+    have : K.filter ((fun p : Uid × Bool => !p.2) ∘ fun cu => (cu.1, cu.2.dtype.isConst)) = K :=
+      List.filter_eq_self.2 (fun cu hcu => by simp [hKnc cu hcu])
+    rw [this]; rfl
+  have hpm : (K.map (fun cu => (cu.1, cu.2.dtype.isConst))).map (·.1) = K.map (·.1) := by rw [List.map_map]; rfl
+  have hcs2 : compile (.summarize i (.groupBy j c K false) (L.map (·.1)) (L.map (·.2.2)) (L.map (·.2.1)) metas) needed =
+      .ok (sumOut r K L,
+        (uidsOfVerb (.summarize i (.groupBy j c K false) (L.map (·.1)) (L.map (·.2.2)) (L.map (·.2.1)) metas)).foldl Needed.decr
+          ((uidsOfVerb (.groupBy j c K false)).foldl Needed.decr n')) := by
+    simp only [compile, hc, bind, Except.bind, pure, Except.pure, hz, hfold, inv.hg, Bool.false_eq_true, ↓reduceIte, hgb, hpm,
+      List.nil_append, sumOut]
+  rw [hcs2] at hcs
+  simp only [Except.ok.injEq, Prod.mk.injEq] at hcs
+  obtain ⟨hrs, hns⟩ := hcs
+  have hmono := wrap_needed_mono (Wrap.summarize i (L.map (·.1)) (L.map (·.2.2)) (L.map (·.2.1)) metas (Wrap.groupBy j K false (Wrap.leaf hm)))
+    needed rs ns (by rw [hcs2, hrs, hns])
+  -- labels of the SELECT = visible names of the reference table
+  have hlab : rs.query.select.map rs.defs.name =
+      (Spec.run db (.summarize i (.groupBy j c K false) (L.map (·.1)) (L.map (·.2.2)) (L.map (·.2.1)) metas)).visible.map (·.1) := by
+    have := congrArg Prod.fst href
+    simpa [Sql.run, STbl.frame] using this
+  have hready : Ready rs ns := by
+    refine ⟨?_, ?_, by rw [hlab]; exact hnames, fun N _ => ready_agg_grouped _ _ (by rw [← hrs]; simpa [sumOut] using hK) N⟩
+    · intro u hu
+      rw [← hrs] at hu
+      simp only [sumOut, List.mem_append, List.mem_filter] at hu
+      have hmem : u ∈ K.map (·.1) ++ L.map (·.2.1) := by
+        rcases hu with ⟨huK, _⟩ | huL
+        · exact List.mem_append_left _ huK
+        · exact List.mem_append_right _ huL
+      exact any_of_low _ _ (Nat.le_trans (hneed u hmem) (hmono u))
+    · intro u hu
+      rw [← hrs] at hu ⊢
+      simp only [sumOut, List.mem_append, List.mem_filter] at hu ⊢
+      rcases hu with ⟨huK, _⟩ | huL
+      · obtain ⟨cu, hcu, rfl⟩ := List.mem_map.1 huK
+        rw [get_append_left_defs _ _ _ ((inv.hkeys cu.1).2 (hKsc cu hcu))]
+        exact (inv.hkeys cu.1).2 (hKsc cu hcu)
+      · obtain ⟨t, ht, rfl⟩ := List.mem_map.1 huL
+        rw [get_append_right_defs _ _ _ (by rw [Bool.eq_false_iff, Ne, inv.hkeys]; exact hfresh t ht)]
+        have hmem : (t.2.1, t.1, Sql.inline r.defs t.2.2) ∈ newDefs r.defs L := List.mem_map.2 ⟨t, ht, rfl⟩
+        have := find_of_mem_nodup _ (by rw [hndkeys]; exact hnd) _ hmem
+        simp only [Defs.get]
+        simp only at this
+        rw [this]; rfl
+  exact refines_through_marker db m _ needed rs ns (by rw [hcs2, hrs, hns]) hready href
 
 end Pdt.C08
